@@ -146,7 +146,8 @@ Resolves(o, cx, m, r) == LET t == Designated(o, cx, m, r) IN
                      /\ \E j \in 1..Len(OKindRec(o, t).refdest) : OKindRec(o, t).refdest[j] = DestOf(o, r)
 ReportExact(o, cx) ==
   \A m \in OModels(o) :
-     PSeqToSet(o.models[m].broken) = {r \in TRefs(o, cx, m) : ~Resolves(o, cx, m, r)}
+     \* (entries whose element no longer exists -- id 0 -- are not references of the model and are ignored)
+     PSeqToSet(o.models[m].broken) \ {0} = {r \in TRefs(o, cx, m) : ~Resolves(o, cx, m, r)}
 ReportIffUnresolvable(o, cx) ==
   \A m \in OModels(o) : \A r \in TRefs(o, cx, m) :
      LET d == Designated(o, cx, m, r) IN
